@@ -11,6 +11,9 @@ def main():
         print("usage: check <Cxx> [--tier quick|thorough] [--replay file]")
         return 2
     pid = sys.argv[1].upper()
+    for i, a in enumerate(sys.argv):
+        if a == "--replay" and i + 1 < len(sys.argv):
+            sys.argv[i + 1] = os.path.abspath(sys.argv[i + 1])  # before the cwd moves to a scratch directory
     # scratch cwd: the actuator writes backtest-with-error.* to ./ on RuntimeError
     scratch = tempfile.mkdtemp(prefix="verif-cwd-")
     os.chdir(scratch)
